@@ -1,7 +1,9 @@
 """With __all__, a public helper that is not listed is omitted although a listed definition still refers to it.
 
 Exit status 1 = defect present, 0 = absent, 2 = inconclusive (preconditions of the input failed).
-Mechanism keys: stub-typecheck:semantic:name-defined:not-in-__all__-function-omitted-but-referenced, stub-typecheck:semantic:name-defined:not-in-__all__-alias-omitted-but-referenced"""
+Mechanism keys:
+  stub-typecheck:semantic:name-defined:not-in-__all__-function-omitted-but-referenced
+"""
 import os
 import sys
 
@@ -20,6 +22,5 @@ def run(x: int) -> int:
 Pair = tuple[int, str]
 Alias = list[Pair]
 '''
-EXPECT = ['stub-typecheck:semantic:name-defined:not-in-__all__-function-omitted-but-referenced',
- 'stub-typecheck:semantic:name-defined:not-in-__all__-alias-omitted-but-referenced']
+EXPECT = ['stub-typecheck:semantic:name-defined:not-in-__all__-function-omitted-but-referenced']
 run(FILES, 'sem', EXPECT, what=__doc__.splitlines()[0])
